@@ -672,6 +672,14 @@ impl<Front: SocketHandler> ConnectionH1<Front> {
                         stream.front.clear();
                         // do not stream.front.storage.clear() because of H1 pipelining
                         stream.attempts = 0;
+                        // The slot serves the next request of this connection: the
+                        // per-message H2 bookkeeping of the answered one (END_STREAM
+                        // seen, DATA octets counted against Content-Length) must not
+                        // leak into it, exactly as when `create_stream` recycles a slot.
+                        stream.front_received_end_of_stream = false;
+                        stream.back_received_end_of_stream = false;
+                        stream.front_data_received = 0;
+                        stream.back_data_received = 0;
                         // Transition back to Idle so buffered pipelined requests
                         // trigger a phase transition on the next readable() call.
                         stream.state = StreamState::Idle;
